@@ -77,8 +77,11 @@ func (r *Reader) readSecondStage(bufMeta []bufferMeta) (rb []byte, err error) {
 				uint32(varRecLen), uint32(numVarRecords), uint32(md.Intervals), uint64(intervalStartEpoch))
 
 			// rb = append(rb, rbTemp...)
-			if (rbCursor + len(rbTemp)) > totalDatalen {
-				totalDatalen += totalDatalen
+			if need := rbCursor + len(rbTemp); need > totalDatalen {
+				// the estimate was too small (highly compressible data): grow until this block fits
+				for totalDatalen < need {
+					totalDatalen = 2*totalDatalen + 1
+				}
 				rb2 := make([]byte, totalDatalen)
 				copy(rb2[:rbCursor], rb[:rbCursor])
 				rb = rb2
